@@ -36,6 +36,42 @@ bool is_flonum(Type *ty) {
          ty->kind == TY_LDOUBLE;
 }
 
+// True if `ty` is or contains a long double. In the x86-64 psABI such
+// an aggregate has class X87 (or MEMORY) and is never passed in
+// general-purpose or SSE registers.
+bool has_ldouble(Type *ty) {
+  if (ty->kind == TY_STRUCT || ty->kind == TY_UNION) {
+    for (Member *mem = ty->members; mem; mem = mem->next)
+      if (has_ldouble(mem->ty))
+        return true;
+    return false;
+  }
+  if (ty->kind == TY_ARRAY)
+    return has_ldouble(ty->base);
+  return ty->kind == TY_LDOUBLE;
+}
+
+// True if every scalar in `ty` is a long double.
+bool only_ldouble(Type *ty) {
+  if (ty->kind == TY_STRUCT || ty->kind == TY_UNION) {
+    for (Member *mem = ty->members; mem; mem = mem->next)
+      if (!only_ldouble(mem->ty))
+        return false;
+    return ty->members != NULL;
+  }
+  if (ty->kind == TY_ARRAY)
+    return only_ldouble(ty->base);
+  return ty->kind == TY_LDOUBLE;
+}
+
+// True if a struct or union is returned through a hidden pointer.
+// Aggregates of up to 16 bytes are returned in registers: in %st0 if
+// they consist of a single long double, in RAX/RDX/XMM0/XMM1 if they
+// contain no long double at all.
+bool ret_in_memory(Type *ty) {
+  return ty->size > 16 || (has_ldouble(ty) && !only_ldouble(ty));
+}
+
 bool is_numeric(Type *ty) {
   return is_integer(ty) || is_flonum(ty);
 }
